@@ -264,7 +264,7 @@ func resultsChild(args []string) error {
 		go func(idx int) {
 			select {
 			case <-done:
-			case <-time.After(8 * time.Second):
+			case <-time.After(60 * time.Second): // generous: a busy machine must not look like a non-terminating analysis
 				fmt.Fprintf(out, "T %d\n", idx)
 				os.Exit(9)
 			}
